@@ -12,8 +12,9 @@ PROP = {
     "level": "fault_enumeration",
     "technique": "Hypothesis RuleBasedStateMachine reaches file states (table empty / partly filled / full, N in 1..16, images with an unused slot between live blocks); at every 'inject' step EVERY applicable rejection cause x API path (add / replace / setter / remove) x position of the failing element is enumerated, each checked by sha256 of the file before/after and in-memory table vs. independent parse; the history then continues with valid operations under the C03 + C11 invariants",
     "level_text": ("Fault enumeration over reachable states: the cause list (duplicate type, full table, over-long / non-cp1252 label in the "
-                   "first, a middle, the last item, over-long / non-cp1252 comment, unsupported format, wrong object, absent type for "
-                   "remove / replace, unused slot between live blocks) is enumerated completely at each state the generated history "
+                   "first, a middle, the last item, over-long (also by exactly one) / non-cp1252 comment, unsupported format, dates that do not fit the entry, format None, wrong object "
+                   "(None, int, str, a track, an array, a dict, an UnusedBlock), absent type for remove / replace, unused slot between live blocks - "
+                   "also as the only unused slot) is enumerated completely at each state the generated history "
                    "reaches - not sampled. After each refused call the bytes must be identical and the open object's table must still "
                    "equal the file; afterwards valid operations must behave exactly as the model that never saw the failed call "
                    "predicts (outcomes, well-formedness, accessors)."),
